@@ -3,3 +3,13 @@ package world
 import "testing"
 
 func TestC01(t *testing.T) { RunK(t, CfgC01()) }
+func TestC02(t *testing.T) { RunK(t, CfgC02()) }
+func TestC03K(t *testing.T) { RunK(t, CfgC03()) }
+func TestC04K(t *testing.T) { RunK(t, CfgC04()) }
+func TestC05(t *testing.T) { RunK(t, CfgC05()) }
+func TestC06(t *testing.T) { RunK(t, CfgC06()) }
+func TestC08(t *testing.T) { RunK(t, CfgC08()) }
+func TestC09K(t *testing.T) { RunK(t, CfgC09()) }
+func TestC11(t *testing.T) { RunK(t, CfgC11()) }
+func TestC12(t *testing.T) { RunK(t, CfgC12()) }
+func TestC13(t *testing.T) { RunK(t, CfgC13()) }
